@@ -15,9 +15,15 @@ A symbolic, executable model of the twelve phases as implemented in `protocol.go
 * Go maps are association lists; the order in which the code ranges over them does not change
   any observed *set* (the observations are sorted).
 
-The model follows the code **as it is after the fix** (`fixed = true`) and keeps the behaviour
-of the unchanged tree under `fixed = false` (finding F1): in phase 8 points that a member finds
-invalid for itself were dropped, and a member convicted in phase 9 stayed in the valid-points map.
+The model follows the code **as it is after the fixes** and keeps the behaviour of the unchanged
+tree under flags: `fixed = false` (finding F1: in phase 8 points that a member finds invalid for
+itself were dropped, and a member convicted in phase 9 stayed in the valid-points map),
+`fix11 = false` (phase 11 validated reveal messages and recovered shares against a group state that
+changed while the messages were processed: delivery-order dependent), `fixKey = false` (a revealed
+key of a member that is not in QUAL, or whose valid points are held, polluted the group key),
+`fixDedup11 = false` (phase 11 recovered shares from every message, not only the first per sender),
+`fixAbort = false` (an accusation/reveal whose sender published no public key for the named member
+— e.g. naming itself — aborted the protocol of every member that accepted the message).
 -/
 namespace KeepVerif.C01
 
@@ -132,6 +138,10 @@ structure St where
   t : Nat
   q : Nat
   fixed : Bool
+  fix11 : Bool := true     -- phase 11 validates/recover against one snapshot of the group state
+  fixKey : Bool := true    -- only QUAL members are reconstructed; no individual key is added twice
+  fixDedup11 : Bool := true -- phase 11 recovers shares from the first message of every sender only
+  fixAbort : Bool := true  -- a missing public key of the accuser/revealer disqualifies it instead of aborting
   status : Status := .ok
   ia : List Nat := []
   dq : List Nat := []
@@ -306,7 +316,7 @@ def phase5 (st : St) : St :=
   (accusations msgs).foldl (fun s (accuser, accused, key) =>
     if s.status ≠ .ok then s else
     match verdict5 (evidence s) s.q s.id s.n ((lookup accused s.recvC).getD []) accuser accused key with
-    | .fatal => { s with status := .errNoPubKey }
+    | .fatal => if s.fixAbort then discardShares (markDQ s accuser) accuser else { s with status := .errNoPubKey }
     | .accuser => discardShares (markDQ s accuser) accuser
     | _ => discardShares (markDQ s accused) accused) st
 
@@ -329,7 +339,7 @@ def phase9 (st : St) : St :=
   (accusations msgs).foldl (fun s (accuser, accused, key) =>
     if s.status ≠ .ok then s else
     match verdict9 (evidence s) s.q s.id s.n (pointsOf s accused) accuser accused key with
-    | .fatal => { s with status := .errNoPubKey }
+    | .fatal => if s.fixAbort then markDQ s accuser else { s with status := .errNoPubKey }
     | .accuser => markDQ s accuser
     | .accused => discardPoints (markDQ s accused) accused
     | .both => discardPoints (markDQ (markDQ s accuser) accused) accused) st
@@ -377,17 +387,25 @@ def addShare (rev : List (Nat × List (Nat × Nat))) (mis revealer s : Nat) : Li
 def phase11 (st : St) : St :=
   let msgs := st.prev.filterMap (fun m => match m with | .reveal h x => some (h.sender, x) | _ => none)
   let st := markInactive st (msgs.map (·.1))
-  let st := (dedup (·.1) msgs).foldl (fun s (sender, ks) =>
-    if !isValidReveal s ks then markDQ s sender else s) st
-  -- recoverMisbehavedShares ranges over ALL messages (not deduplicated)
+  let msgs := if st.fixDedup11 then dedup (·.1) msgs else msgs
+  let st :=
+    if st.fix11 then
+      -- all messages are validated against the state before any disqualification of this phase
+      ((dedup (·.1) msgs).filter (fun p => !isValidReveal st p.2)).foldl (fun s p => markDQ s p.1) st
+    else
+      (dedup (·.1) msgs).foldl (fun s (sender, ks) =>
+        if !isValidReveal s ks then markDQ s sender else s) st
+  let snap := st
+  -- in the unchanged tree recoverMisbehavedShares ranged over ALL messages (not deduplicated)
   let all := msgs.flatMap (fun (revealer, ks) => ks.map (fun (mis, key) => (revealer, mis, key)))
   let (st, rev) := all.foldl (fun (sr : St × List (Nat × List (Nat × Nat))) (revealer, mis, key) =>
     let (s, rev) := sr
     if s.status ≠ .ok then sr else
     if s.id = mis then (markDQ s revealer, rev) else
-    if isOperating s mis then sr else
+    if (if s.fix11 then isOperating snap mis else isOperating s mis) then sr else
+    if s.fixKey && !hasKey mis s.recvS then (markDQ s revealer, rev) else
     match pubKeyOf s.evEph revealer mis with
-    | none => ({ s with status := .errNoPubKey }, rev)
+    | none => if s.fixAbort then (markDQ s revealer, rev) else ({ s with status := .errNoPubKey }, rev)
     | some rpk =>
       if rpk ≠ key then (markDQ s revealer, rev) else
       match pubKeyOf s.evEph mis revealer with
@@ -410,7 +428,8 @@ def phase11 (st : St) : St :=
 
 def phase12 (st : St) : St :=
   let k := st.validPts.foldl (fun acc p => (acc + p.2.headD 0) % st.q) (st.pts.headD 0 % st.q)
-  let k := st.reconPriv.foldl (fun acc p => (acc + p.2) % st.q) k
+  let k := (st.reconPriv.filter (fun p => !(st.fixKey && hasKey p.1 st.validPts))).foldl
+    (fun acc p => (acc + p.2) % st.q) k
   { st with gk := some k }
 
 /-- `ComputeGroupPublicKeyShares` (exponents), for every other operating member. -/
@@ -444,6 +463,10 @@ structure Cfg where
   q : Nat
   fixed : Bool
   adv : List (Nat × Nat × List Variant)     -- (member, phase, variants)
+  fix11 : Bool := true
+  fixKey : Bool := true
+  fixDedup11 : Bool := true
+  fixAbort : Bool := true
 
 /-- coefficient injected by the harness for member `i`, slot `j` (see `gjk.Coef`) -/
 def coef (q seed i j : Nat) : Nat :=
@@ -523,7 +546,8 @@ def applyScript (cfg : Cfg) (st : St) (ph : Nat) (out : List Msg) : List Msg :=
 /-! ## the run -/
 
 def initSt (cfg : Cfg) (i : Nat) : St :=
-  { id := i, n := cfg.n, t := cfg.t, q := cfg.q, fixed := cfg.fixed,
+  { id := i, n := cfg.n, t := cfg.t, q := cfg.q, fixed := cfg.fixed, fix11 := cfg.fix11, fixKey := cfg.fixKey,
+    fixDedup11 := cfg.fixDedup11, fixAbort := cfg.fixAbort,
     coefA := (List.range (cfg.t + 1)).map (fun k => coef cfg.q cfg.seed i k),
     coefB := (List.range (cfg.t + 1)).map (fun k => coef cfg.q cfg.seed i (cfg.t + 1 + k)) }
 
@@ -546,10 +570,21 @@ def initiate (ph : Nat) (st : St) : St × List Msg :=
 
 def sendingPhase (ph : Nat) : Bool := ph = 1 || ph = 3 || ph = 4 || ph = 7 || ph = 8 || ph = 10
 
-/-- delivery order of receiver `rcv` in phase `ph`: authors rotated, every author's own order kept -/
+/-- position key of author `a` in the delivery order of receiver `rcv` in phase `ph`:
+    `ord < 1000` = rotation of the authors, otherwise a pseudo-random permutation per (receiver, phase) -/
+def authorKey (cfg : Cfg) (rcv ph a : Nat) : Nat :=
+  if cfg.ord < 1000 then (a + (cfg.ord + 3 * rcv + 5 * ph) % cfg.n) % cfg.n
+  else ((cfg.ord + 1) * (a + 7 * rcv + 13 * ph + 1) * 2654435761) % 1000003
+
+def insertByKey (x : Nat × Nat) : List (Nat × Nat) → List (Nat × Nat)
+  | [] => [x]
+  | y :: ys => if x.1 < y.1 || (x.1 = y.1 && x.2 < y.2) then x :: y :: ys else y :: insertByKey x ys
+
+/-- delivery order of receiver `rcv` in phase `ph`: the authors permuted, every author's own
+    order kept (consistent broadcast) -/
 def deliveryOrder (cfg : Cfg) (rcv ph : Nat) (wires : List Msg) : List Msg :=
-  let rot := (cfg.ord + 3 * rcv + 5 * ph) % cfg.n
-  (List.range cfg.n).flatMap (fun k => wires.filter (fun m => (m.hdr.author + rot) % cfg.n = k))
+  let authors := ((members cfg.n).map (fun a => (authorKey cfg rcv ph a, a))).foldr insertByKey []
+  authors.flatMap (fun p => wires.filter (fun m => m.hdr.author = p.2))
 
 def alive (st : St) : Bool := st.status = .ok
 
